@@ -41,6 +41,8 @@ func wireMain(args []string) int {
 		return wiredrv.FuzzMain(*cases, *out, *par)
 	case "fuzzchild":
 		return wiredrv.FuzzChild()
+	case "marshal":
+		return wiredrv.MarshalMain(*out)
 	}
 	fmt.Fprintln(os.Stderr, "vh wire: unknown mode", *mode)
 	return 2
